@@ -560,9 +560,15 @@ pub fn run_chunk(prop: &str, batch: &str, first: u64, count: u64, tier: &str, de
 
 /// Run cases 0..n of a batch in chunked children, in parallel; results in index order.
 pub fn run_batch(prop: &str, batch: &str, n: u64, chunk: u64, tier: &str, dev: bool) -> Vec<ChunkResult> {
+    run_batch_par(prop, batch, n, chunk, tier, dev, workers())
+}
+
+/// As `run_batch`, with at most `par` children at a time (batches whose cases
+/// are themselves heavily threaded).
+pub fn run_batch_par(prop: &str, batch: &str, n: u64, chunk: u64, tier: &str, dev: bool, par: usize) -> Vec<ChunkResult> {
     let nchunks = ((n + chunk - 1) / chunk) as usize;
     let (prop, batch, tier) = (prop.to_string(), batch.to_string(), tier.to_string());
-    par_map(nchunks, workers(), move |ci| {
+    par_map(nchunks, par.min(workers()).max(1), move |ci| {
         let first = ci as u64 * chunk;
         let count = chunk.min(n - first);
         run_chunk(&prop, &batch, first, count, &tier, dev)
